@@ -34,7 +34,7 @@ prop('C01', COMMON +
      'RESOLVED-ORDINAL: every ordinal the checker resolves into the typed tree (field index, variant tag) is read by the '
      'source->HIR lowering. TYPE-WALKER: type rewriters of the compiler visit every child position. Does '
      'not decide that a visited operand is lowered correctly.',
-     [enum_evidence.run, eval_order.run, eval_order.run_resolved_ordinal, backend.run_str_predicates, backend.run_entry_output_fresh, type_walker.make(('samlang_compiler',), 3), TI.make(['T-hir', 'T-mir_generics_specialization', 'T-mir_type_deduplication', 'T-mir_constant_param_elimination',
+     [enum_evidence.run, eval_order.run, eval_order.run_resolved_ordinal, eval_order.run_guarded_operand, backend.run_str_predicates, backend.run_entry_output_fresh, type_walker.make(('samlang_compiler',), 3), TI.make(['T-hir', 'T-mir_generics_specialization', 'T-mir_type_deduplication', 'T-mir_constant_param_elimination',
                'T-lir_lowering', 'T-lune', 'T-wasm'])])
 
 prop('C02', COMMON +
@@ -52,7 +52,7 @@ prop('C02', COMMON +
      'the loop optimiser\'s operator tables (guard extraction, negation, rebuild) are evaluated from MIR for every input and '
      'compared with integer order logic. '
      'Does not decide loop closed forms, LICM legality, inlining capture-avoidance or escape analysis.',
-     [const_arith.run, optimizer.run_dce_keep, optimizer.run_fold_table, optimizer.run_swap_table, guard_table.run, traversal.run_tuple_components, scope.run_bracket, scope.run_counter_sync,
+     [const_arith.run, optimizer.run_dce_keep, optimizer.run_fold_table, optimizer.run_swap_table, optimizer.run_branch_pair, guard_table.run, traversal.run_tuple_components, scope.run_bracket, scope.run_counter_sync,
       TI.make(['T-dce', 'T-conditional_constant_propagation', 'T-inlining', 'T-local_value_numbering',
                'T-scalar_replacement', 'T-unused_name_elimination', 'T-loop_induction_variable_elimination'])])
 
@@ -86,7 +86,7 @@ prop('C08', COMMON +
      'precedence decider; the plain printer may take a left operand only behind an equal-precedence test and a right operand '
      'only behind same-operator + associative-operator tests (reported as the known regrouping finding). TYPE-WALKER: the '
      'annotation printer visits every child position. Does not decide layout.',
-     [printer_rules.run_prec_iso, printer_rules.run_literal_parity, printer_rules.run_paren_assoc, printer_rules.run_paren_sink, printer_rules.run_paren_unary_level, printer_rules.run_pattern_parens, shape.run_literal_source, parser_progress.run_list_end_token, type_walker.make(('samlang_printer',), 1), TI.make(['T-prt'])])
+     [printer_rules.run_prec_iso, printer_rules.run_literal_parity, printer_rules.run_paren_assoc, printer_rules.run_paren_sink, printer_rules.run_paren_unary_level, printer_rules.run_plain_position, printer_rules.run_pattern_parens, shape.run_literal_source, parser_progress.run_list_end_token, type_walker.make(('samlang_printer',), 1), TI.make(['T-prt'])])
 
 prop('C09', COMMON +
      'Clause "every comment is kept". COMMENT-LINEAR: linear-resource typestate dataflow over the parser MIR (Vec<Comment> '
@@ -103,7 +103,7 @@ prop('C09', COMMON +
      'NODE-LEADING-COMMENTS: a node handed to a printer function that does not print the node\'s leading comments has that slot read by the function handing it over, '
      'the functions it calls or its callers (per hand-over, not only once per slot). Does not decide '
      'idempotence of the layout nor that a stored comment is printed in the right place.',
-     [comment_linear.run, comment_linear.run_fresh_reference, comment_linear.run_comment_order, comment_linear.run_comment_ref_unique, printer_rules.run_id_comment_pair, printer_rules.run_line_comment_break, printer_rules.run_element_comments, node_comments.run, TI.make(['T-prc'])])
+     [comment_linear.run, comment_linear.run_fresh_reference, comment_linear.run_comment_order, comment_linear.run_comment_ref_unique, printer_rules.run_id_comment_pair, printer_rules.run_line_comment_break, printer_rules.run_element_comments, node_comments.run, node_comments.run_child_expr, TI.make(['T-prc'])])
 
 prop('C11', COMMON +
      'TRAVERSAL/SIBLING(T-gc): the PStr-bearing fields reachable from Module<Arc<Type>> (type walk over the ADT table) '
@@ -114,7 +114,7 @@ prop('C11', COMMON +
      'server_state module mutates those maps, and UPDATE-ORDER (shared with C10) checks that the mutators insert/remove '
      'all per-module maps under the same keys. POP-MUST-MARK: in the GC driver every module reference popped from the '
      'unmarked set is looked up and marked on every path before the next pop or return.',
-     [TI.make(['T-gc']), gc_rules.run, gc_rules.run_gc_roots, gc_rules.run_store_pairing, lookup_unwrap.run, lookup_unwrap.run_writers, incremental.run_order,
+     [TI.make(['T-gc']), gc_rules.run, gc_rules.run_gc_roots, gc_rules.run_store_pairing, lookup_unwrap.run, lookup_unwrap.run_writers, incremental.run_order, incremental.run_errors,
       witness.run_for(['WState'], 'C11: outside samlang-services the state maps cannot be written (compile-fail witnesses)')],
      ['A-11.1: a field read by the marker family is actually passed to Heap::mark (read, not checked)',
       'A-11.2: every PStr held in parsed_modules/global_cx/errors also occurs in some checked module'])
@@ -126,7 +126,7 @@ prop('C15', COMMON +
      'scope resolver). NAV-VIA-SSA: every path of a navigation query that handles a local-name hit passes through the SSA '
      'lookup. LOC-GUARD: a cursor-position test gating the descent into a child tests a location of that child or of a node '
      'containing it (sibling locations only where the parser provably widens them). Does not decide capture-freedom of the new name or behavioural identity after rename.',
-     [ssa_shared.run, ssa_shared.run_nav_via_ssa, ssa_shared.run_ident_alphabet, printer_rules.run_pattern_parens, loc_guard.run, scope.run_iflet_else, TI.make(['T-ren', 'T-ssa'])])
+     [ssa_shared.run, ssa_shared.run_nav_via_ssa, ssa_shared.run_ident_alphabet, printer_rules.run_pattern_parens, loc_guard.run, loc_guard.run_rename_relevance, scope.run_iflet_else, TI.make(['T-ren', 'T-ssa'])])
 
 # properties whose reports on the unchanged tree are not yet triaged are not claimed
 import os as _os
@@ -142,7 +142,7 @@ prop('C12', COMMON +
      'remove the taint. COUNTER-SYNC (shared with C02): every temp-name counter handed to the parallel optimiser is '
      'synchronised back on every path. Does not decide that programs emitted under different module enumeration orders or '
      'thread counts behave the same (synthetic numbering follows hash order by design).',
-     [order_taint.run, scope.run_counter_sync],
+     [order_taint.run, order_taint.run_intern_order, scope.run_counter_sync],
      ['ErrorSet keeps its errors in an ordered set (BTreeSet) and renders them in that order'])
 
 prop('C14', COMMON +
@@ -156,7 +156,7 @@ prop('C14', COMMON +
      'CURSOR-LOC-FRESH - the parser cursor\'s last_location (moved over skipped comments by every peek) is read for a node '
      'location only directly after a token was consumed. Does not decide the lexer\'s line/column bookkeeping, that positions lie '
      'inside the document, or that siblings do not overlap.',
-     [loc_enclose.run, loc_enclose.run_name_loc_pair, loc_enclose.run_result_loc, loc_enclose.run_cursor_loc_fresh],
+     [loc_enclose.run, loc_enclose.run_name_loc_pair, loc_enclose.run_result_loc, loc_enclose.run_cursor_loc_fresh, loc_enclose.run_position_from_tokens],
      ['tokens are consumed in source order and the lexer assigns increasing positions (C05 LEX-BOUNDS side)'])
 
 prop('C17', COMMON +
@@ -170,7 +170,7 @@ prop('C17', COMMON +
      'interpretation of the sweeper with variables for the cursor field and the table length: the swept range starts at the '
      'cursor found on entry and the cursor is left at its end (or 0 at the table end), so consecutive windows tile the table. '
      'Does not decide the interleaving argument itself (that marking completes between cursor wraps).',
-     [heap.run_tag, heap.run_dealloc, heap.run_unintern, heap.run_monotone, heap.run_intern, heap.run_unmarked_set, sweep_window.run,
+     [heap.run_tag, heap.run_dealloc, heap.run_unintern, heap.run_monotone, heap.run_intern, heap.run_unmarked_set, heap.run_per_element_total, sweep_window.run,
       witness.run_for(['WHeap'], 'C17: handles cannot be forged and heap internals cannot be touched outside the crate (compile-fail witnesses)')],
      ['the marker marks every live string before the unmarked-module set becomes empty (C11 side, T-gc)'])
 
@@ -225,6 +225,6 @@ prop('C05', COMMON +
      'parser - an interprocedural must-consume analysis over 75 token classes (summaries per production, specialised on constant '
      'keyword/operator arguments) shows that every trip through each of the parser\'s token-driven loops consumes a token. GATE: '
      'parse errors land in the error set the compile entry point tests. Does not decide unbounded recursion or stack depth.',
-     [lex_bounds.run, lex_bounds.run_int_range, shape.run_fabricate, shape.run_shape, str_slice.run, gate.run_binder_write, parser_progress.run, gate.run_gate],
+     [lex_bounds.run, lex_bounds.run_int_range, shape.run_fabricate, shape.run_shape, str_slice.run, gate.run_binder_write, parser_progress.run, gate.run_gate, scope.run_save_call_restore],
      ['lengths of in-memory slices are < 2^63 (usize additions on lengths do not overflow)',
       'A-05.1: parenthesised lists reaching a Tuple construction are non-empty'])
